@@ -18,7 +18,8 @@ import (
 func init() {
 	register(&RuleSet{
 		ID: "C17",
-		Explanation: "R1 (effects): every write in the call closures of SevPolicy and TdxPolicy goes to an object allocated during the call (literal, proto.Clone result) — nothing is written through opts.Base or the endorsement. " +
+		Explanation: "R1b the policy a derivation returns is, on every returning path, an object made during the call (a literal or a proto.Clone result), never the base or a message reached from an argument. " +
+			"R1 (effects): every write in the call closures of SevPolicy and TdxPolicy goes to an object allocated during the call (literal, proto.Clone result) — nothing is written through opts.Base or the endorsement. " +
 			"R2 (field whitelist): in package gcetcbendorsement the only fields of check.Policy ever written are Policy, Measurement, TrustedIdKeys, TrustedAuthorKeys (the two key lists only by append to themselves); of checkconfig.Policy only TdQuoteBodyPolicy (only behind its nil test) and of TDQuoteBodyPolicy only AnyMrTd; the literal that builds the default base when the caller gave none is exempt. " +
 			"R3 (ESP over SevPolicy and every function of the package it reaches): Policy.Policy is stored only on paths where Overwrite is true or a comparison found the base guest policy zero or equal to the endorsed one; Policy.Measurement only where Overwrite is true or the base measurement was found empty or compatible (a bool-valued call over the endorsed measurement and the base one) — wherever those comparisons are written (a check function, a switch, a helper); SevPolicy cannot return nil without overwrite when the endorsed SVN was found below the base minimum; AnyMrTd is stored only where the base list is known nil, the body policy was absent, or Overwrite is true. " +
 			"R4 (slices): Policy ← endorsement GetPolicy(); appended keys ← Bytes of pem.Decode blocks of the endorsement's CA bundle, behind the Type == CERTIFICATE edge. " +
@@ -58,6 +59,93 @@ func runC17(c *Ctx) {
 			c.S.OK("R1", load.FuncName(root)+":fresh result", c.pos(root.Pos()), fmt.Sprintf("%d writes in a closure of %d functions, all to objects allocated in the call", len(ws), len(clo)), true)
 		}
 		c.S.Floor("R1", "writes in the closure of "+load.FuncName(root), 2, len(ws))
+		// R1b: what a derivation hands back is an object made during the call (a literal or a proto.Clone result),
+		// on every returning path — never the base itself or a message reached from an argument, which the caller would
+		// then edit through the result
+		var fresh func(v ssa.Value, d int, seen map[ssa.Value]bool) (bool, string)
+		fresh = func(v ssa.Value, d int, seen map[ssa.Value]bool) (bool, string) {
+			if d > 8 {
+				return false, "too deep"
+			}
+			if seen[v] {
+				return true, ""
+			}
+			seen[v] = true
+			switch x := v.(type) {
+			case *ssa.Const:
+				return x.Value == nil, "a constant"
+			case *ssa.Alloc:
+				if x.Heap {
+					if _, isStruct := x.Type().Underlying().(*types.Pointer).Elem().Underlying().(*types.Struct); isStruct {
+						return true, ""
+					}
+				}
+				// a local cell: everything stored into it
+				for _, r := range *x.Referrers() {
+					if st, ok := r.(*ssa.Store); ok && st.Addr == ssa.Value(x) {
+						if ok, why := fresh(st.Val, d+1, seen); !ok {
+							return false, why
+						}
+					}
+				}
+				return true, ""
+			case *ssa.UnOp:
+				if x.Op == token.MUL {
+					if al, ok := x.X.(*ssa.Alloc); ok {
+						if _, isStruct := al.Type().Underlying().(*types.Pointer).Elem().Underlying().(*types.Struct); !isStruct {
+							return fresh(al, d+1, seen)
+						}
+					}
+				}
+				return false, "loaded from " + flow.Describe(x.X)
+			case *ssa.Phi:
+				for _, e := range x.Edges {
+					if ok, why := fresh(e, d+1, seen); !ok {
+						return false, why
+					}
+				}
+				return true, ""
+			case *ssa.TypeAssert:
+				return fresh(x.X, d+1, seen)
+			case *ssa.ChangeType:
+				return fresh(x.X, d+1, seen)
+			case *ssa.Extract:
+				return fresh(x.Tuple, d+1, seen)
+			case *ssa.Call:
+				if calleeIs(x, "google.golang.org/protobuf/proto.Clone") {
+					return true, ""
+				}
+				if g := x.Call.StaticCallee(); g != nil && load.FuncInRepo(g) && g.Blocks != nil {
+					for _, b := range g.Blocks {
+						if ret, ok := b.Instrs[len(b.Instrs)-1].(*ssa.Return); ok && len(ret.Results) > 0 {
+							if ok, why := fresh(ret.Results[0], d+1, seen); !ok {
+								return false, why
+							}
+						}
+					}
+					return true, ""
+				}
+				return false, "the result of " + callName(x)
+			case *ssa.Parameter:
+				return false, "parameter " + x.Name()
+			}
+			return false, flow.Describe(v)
+		}
+		nRet := 0
+		var notFresh []string
+		for _, b := range root.Blocks {
+			ret, ok := b.Instrs[len(b.Instrs)-1].(*ssa.Return)
+			if !ok || len(ret.Results) == 0 || isNilK(ret.Results[0]) {
+				continue
+			}
+			nRet++
+			if ok, why := fresh(ret.Results[0], 0, map[ssa.Value]bool{}); !ok {
+				notFresh = append(notFresh, fmt.Sprintf("%s (%s)", c.pos(ret.Pos()), why))
+			}
+		}
+		c.S.Check(len(notFresh) == 0, "R1b", load.FuncName(root)+":returned policy is made in the call", c.pos(root.Pos()), fmt.Sprintf("%d returns of a policy, each a literal or a proto.Clone result", nRet),
+			"policy derivation returns an object that was not made during the call at "+strings.Join(notFresh, ", ")+": the caller's base (or a message of the endorsement) and the derived policy are then one object, and editing the result edits the base")
+		c.S.Floor("R1b", "policy-returning exits of "+load.FuncName(root), 1, nRet)
 	}
 
 	// ---- R2 ----
